@@ -74,6 +74,7 @@ template <class M, size_t... K> auto callMap(const M& m, const std::vector<long 
 }
 template <class M> auto callMap(const M& m, const std::vector<long long>& a) { return callMap(m, a, std::make_index_sequence<M::extents_type::rank()>()); }
 
+inline std::vector<std::string> splitStr(const std::string& s, char c) { std::vector<std::string> o; std::stringstream ss(s); std::string t; while (std::getline(ss, t, c)) o.push_back(t); return o; }
 inline sigjmp_buf& jb() { static sigjmp_buf b; return b; }
 inline int& lastSig() { static int s = 0; return s; }
 inline void onTrap(int sig) { lastSig() = sig; siglongjmp(jb(), 1); }
@@ -108,6 +109,7 @@ inline int serve() {
   sigaction(SIGILL, &sa, nullptr); sigaction(SIGFPE, &sa, nullptr); sigaction(SIGTRAP, &sa, nullptr); sigaction(SIGSEGV, &sa, nullptr); sigaction(SIGBUS, &sa, nullptr);
   std::string line;
   std::ios::sync_with_stdio(false);
+  setvbuf(stdout, nullptr, _IOLBF, 1 << 16);   // a line must not be lost when a later line aborts the process
   while (std::getline(std::cin, line)) {
     if (line == "keys") { std::string s; for (auto& kv : registry()) { s += kv.first; s += " "; } puts(s.c_str()); continue; }
     Op o = parseLine(line);
